@@ -111,4 +111,4 @@ for c in req.get("cases", []):
     except Exception as e:
         import traceback
         rows.append({"id": c["id"], "error": type(e).__name__ + ": " + str(e)[:300], "tb": traceback.format_exc()[-600:]})
-print(json.dumps({"rows": rows, "reuse": reuse_rows}))
+print(json.dumps({"rows": rows, "reuse": reuse_rows}, default=__import__("_util").jdefault))
